@@ -42,6 +42,8 @@ def mineral_spec(min_n=2, max_n=40, regimes=(4, 6), fabrics=range(6), explicit_m
                 "init": st.just("given"),
                 "tex": tex,
                 "vol": gen.volume_spec(),
+                # memory layout of the arrays handed to the constructor (same values)
+                "layout": st.sampled_from(["C", "C", "F", "moveaxis", "strided"]),
             }
         )
     ]
@@ -149,7 +151,21 @@ def build_mineral(ms):
         return sut(_minerals.Mineral, n_grains=ms["n"], seed=ms["seed"], **kw)
     A = gen.orientations(ms["tex"])
     f = gen.volumes(ms["vol"], len(A))
+    A, f = relayout(A, f, ms.get("layout", "C"))
     return sut(_minerals.Mineral, n_grains=len(A), fractions_init=f, orientations_init=A, **kw)
+
+
+def relayout(A, f, layout):
+    """Same values, different memory layout (any NumPy-compatible array is a legal input)."""
+    if layout == "F":
+        return np.asfortranarray(A), f
+    if layout == "moveaxis":  # component-first storage (3, 3, n) viewed as (n, 3, 3)
+        return np.moveaxis(np.ascontiguousarray(np.moveaxis(A, 0, -1)), -1, 0), f
+    if layout == "strided":
+        A2 = np.repeat(A, 2, axis=0)[::2]
+        f2 = np.repeat(f, 2)[::2]
+        return A2, f2
+    return A, f
 
 
 def mineral_n(ms):
@@ -176,7 +192,9 @@ def f0(spec):
     if spec["k"] == "I":
         return np.eye(3)
     Q = gen.rot(spec["Q"])
-    return gen.rot(spec["R"]) @ (Q @ np.diag(spec["s"]) @ Q.T)
+    F = gen.rot(spec["R"]) @ (Q @ np.diag(spec["s"]) @ Q.T)
+    # Fortran-ordered when the first stretch is below 1 (same values, other memory layout)
+    return np.asfortranarray(F) if spec["s"][0] < 1.0 else F
 
 
 class Flow:
